@@ -105,12 +105,21 @@ def ops_for(spec, rnd):
         O.append((f"{st}.jobs*=2", lambda b, st=st: b[st].__setattr__("jobs", b[st].jobs.__imul__(2)), lambda m, key=key: m.__setitem__(key, m[key] * 2), "imul"))
         O.append((f"{st}.jobs={st}.jobs[:1]", lambda b, st=st: setattr(b[st], "jobs", list(b[st].jobs[:1])), lambda m, key=key: m.__setitem__(key, m[key][:1]), "slice"))
         O.append((f"{st}.jobs=same", lambda b, st=st: setattr(b[st], "jobs", list(b[st].jobs)), lambda m, key=key: None, "noop"))
+        # same length, only objects already linked: a permutation, and one object dropped for a repeat of another
+        O.append((f"{st}.jobs=reversed", lambda b, st=st: setattr(b[st], "jobs", list(reversed(list(b[st].jobs)))),
+                  lambda m, key=key: m.__setitem__(key, list(reversed(m[key]))), "assign-permutation"))
+        O.append((f"{st}.jobs=[first]*len", lambda b, st=st: setattr(b[st], "jobs", [list(b[st].jobs)[0]] * len(b[st].jobs)) if len(b[st].jobs) else None,
+                  lambda m, key=key: m.__setitem__(key, [m[key][0]] * len(m[key])) if m[key] else None, "assign-repeat"))
     for uj in journeys:
         key = (uj, "uj_steps")
         for st in steps:
             O.append((f"{uj}.uj_steps.append({st})", lambda b, uj=uj, st=st: b[uj].uj_steps.append(b[st]), lambda m, key=key, st=st: m[key].append(st), "append"))
             O.append((f"{uj}.uj_steps=[{st}]", lambda b, uj=uj, st=st: setattr(b[uj], "uj_steps", [b[st]]), lambda m, key=key, st=st: m.__setitem__(key, [st]), "assign-list"))
         O.append((f"{uj}.uj_steps.pop()", lambda b, uj=uj: b[uj].uj_steps.pop(), lambda m, key=key: m[key].pop(), "pop"))
+        O.append((f"{uj}.uj_steps=reversed", lambda b, uj=uj: setattr(b[uj], "uj_steps", list(reversed(list(b[uj].uj_steps)))),
+                  lambda m, key=key: m.__setitem__(key, list(reversed(m[key]))), "assign-permutation"))
+        O.append((f"{uj}.uj_steps=[first]*len", lambda b, uj=uj: setattr(b[uj], "uj_steps", [list(b[uj].uj_steps)[0]] * len(b[uj].uj_steps)),
+                  lambda m, key=key: m.__setitem__(key, [m[key][0]] * len(m[key])), "assign-repeat"))
     for up in ups:
         for uj in journeys:
             O.append((f"{up}.usage_journey={uj}", lambda b, up=up, uj=uj: setattr(b[up], "usage_journey", b[uj]), lambda m: None, "assign-object",
